@@ -3,10 +3,10 @@
    Only statements, closed by [exact lemma], with Print Assumptions beneath. *)
 From Coq Require Import String List NArith ZArith Bool Lia ZifyN ZifyNat ZifyBool.
 From J5V.lib Require Import Outcome Json JsonPrint Base64 Civil Decimal.
-From J5V.model Require Import CodecTypes CodecEnc CodecEncSpec CodecEncDec.
+From J5V.model Require Import CodecTypes CodecEnc CodecEncSpec CodecEncDec CodecFloatInt.
 From J5V.model Require CodecDecScalar CodecDec CodecDecTree.
 From J5V.proofs Require CodecDecTime CodecDecDecimal.
-From J5V.proofs Require Import CodecEncProofs CodecEncDecProofs CodecEncTotal CodecEncDecTie CodecEncLex.
+From J5V.proofs Require Import CodecEncProofs CodecEncDecProofs CodecEncTotal CodecEncDecTie CodecEncLex CodecEncInner CodecEncRep CodecEncRepTie CodecFloatIntProofs CodecFloatNonFinite.
 Import ListNotations.
 Local Open Scope N_scope.
 
@@ -366,3 +366,149 @@ Example C01_bytes_scalars_example :
   msg_get 1 sc_back = msg_get 1 sc_msg /\ msg_get 2 sc_back = msg_get 2 sc_msg /\ msg_get 4 sc_back = msg_get 4 sc_msg /\
   msg_get 3 sc_back = Some (VMsg [(1, VStr [49; 46; 53])]).
 Proof. repeat split; vm_compute; reflexivity. Qed.
+
+(* ---------------------------------------------------------------- the float laws on a sub-domain
+   float_text_ok and float_roundtrip are premises of the theorems above (laws of strconv, exercised on
+   every run, never proved of strconv).  On the sub-domain of integer-valued floats of magnitude below
+   10^5 (both widths, both signs, -0 included) they are PROVED for a model of FormatFloat(v,'g',-1,w) /
+   ParseFloat (model/CodecFloatInt.v: such a float prints as its decimal digits, the literal parses to
+   the exact float), and that model is compared with strconv on the sub-domain on every run (stream
+   CFloatInt): the pattern is finite, the text is a JSON number, and it reads back to the same bits. *)
+Theorem C01_float_laws_on_small_integers : forall is32 neg n, (n < small_bound)%N ->
+  let bits := float_of_int is32 neg n in
+  float_finite is32 bits = true /\
+  exists txt, fmt_small is32 bits = Some txt /\ valid_number txt = true /\ parse_small is32 txt = Some bits.
+Proof. exact float_laws_small. Qed.
+Print Assumptions C01_float_laws_on_small_integers.
+
+(* ---------------------------------------------------------------- non-finite floats, width by width
+   Outside the property's quantifier (finite floats), inside the codec's contract since /repo 5e4d94d:
+   NaN / +Inf / -Inf are written as the quoted words of the protobuf JSON mapping and read back by the
+   decoder's string arm with ParseFloat at the width of the field.  For every non-finite pattern of
+   either width: an infinity reads back as the SAME pattern, a NaN (any payload) as strconv's NaN.
+   Premise: ParseFloat's answers for the three words at each width (taken from strconv on every run by
+   the literal tables of the non-finite-float stream).  A decoder that refuses "Infinity" for a 32-bit
+   field (seeded change C01-H) fails this stream's oracle and the model/implementation comparison. *)
+Theorem C01_nonfinite_float_roundtrip :
+  forall fmt_float parse_float parse_time, nonfinite_parse_ok parse_float ->
+  forall is32 bits, (bits < ftop is32)%N -> float_finite is32 bits = false ->
+    exists J, enc_scalar fmt_float (fkind is32) (VFloat bits) = Ok (print J) /\ wfb J = true /\
+      exists b', dec_scalar parse_float parse_time (fkind is32) J = Ok (Some (VFloat b')) /\
+                 (float_is_inf is32 bits = true -> b' = bits) /\
+                 (float_is_nan is32 bits = true -> float_is_nan is32 b' = true).
+Proof. exact nonfinite_float_roundtrip. Qed.
+Print Assumptions C01_nonfinite_float_roundtrip.
+Example C01_nonfinite_premise_satisfiable : nonfinite_parse_ok inst_nf.
+Proof. exact nonfinite_parse_satisfiable. Qed.
+
+(* ---------------------------------------------------------------- the preconditions, decided *)
+(* EnumSchema.OptionByName inverts OptionByNumber on every enum whose option names are distinct:
+   the enum round trip is derived from a schema condition (part of env_static_b), not assumed per
+   value (rep_value RV_enum asks only that the number is declared). *)
+Theorem C01_enum_name_number_inverse : forall pre opts n name,
+  NoDup (map fst opts) -> option_by_number opts n = Some name -> option_by_name pre opts name = Some n.
+Proof. exact option_by_name_inverse. Qed.
+Print Assumptions C01_enum_name_number_inverse.
+
+(* the static hypotheses of the theorems are one boolean function of the environment ... *)
+Theorem C01_env_static_decided : forall env, env_static_b env = true ->
+  oneofs_flat env /\ oneof_names_ok env /\ env_items_ok env /\ enums_ok env /\ env_props_ok env.
+Proof. exact env_static_b_sound. Qed.
+Print Assumptions C01_env_static_decided.
+
+(* ... and "representable" is a boolean function of (environment, message): rep_root_b implies the
+   inductive precondition rep_root of the theorems above.  Both functions are evaluated on every
+   round-trip case of every run (CodecEncCorr.enc_check, CRound) and must agree with what the
+   harness says about the case; evidence counts the cases on which they hold. *)
+Theorem C01_rep_root_decided : forall any_inner raw any_back env,
+  enums_ok env -> env_props_ok env ->
+  forall fuel root m, rep_root_b any_inner raw any_back env fuel root m = true -> rep_root any_inner raw any_back env root m.
+Proof. exact rep_root_b_sound. Qed.
+Print Assumptions C01_rep_root_decided.
+
+(* The full statement with computable preconditions: nothing about the schema or the message is a
+   Prop-level hypothesis any more; what remains assumed are the three library laws (strconv float
+   text / round trip, time.Parse) and inner_ok. *)
+Theorem C01_full_statement_decided :
+  forall fmt_float parse_float parse_time any_inner any_back env,
+    float_text_ok fmt_float -> float_roundtrip fmt_float parse_float -> time_parse_extends parse_time ->
+    inner_ok any_inner -> env_static_b env = true ->
+    forall fuel root m, rep_root_b any_inner print any_back env fuel root m = true ->
+      exists txt J, encode fmt_float any_inner env root m = Ok txt /\ strict_parse txt = Some J /\
+        (N.of_nat (jnest J) <= max_nesting ->
+         exists m', decode_tree (dec_scalar parse_float parse_time) print false any_back env root J = Ok m' /\
+                    equiv_root any_inner print any_back env root m m').
+Proof. exact codec_full_decided. Qed.
+Print Assumptions C01_full_statement_decided.
+
+(* ... and over the decoder family's byte-level, Go-tied model on the encoder's text (default codec):
+   the preconditions on schema and message are the same two booleans *)
+Theorem C01_full_statement_bytes_decided :
+  forall fmt_float any_inner orc env,
+    float_text_ok fmt_float -> orc_float_ok fmt_float orc -> orc_time_ok orc -> orc_decimal_ok orc ->
+    inner_ok any_inner -> env_static_b env = true ->
+    forall fuel root m, rep_root_b any_inner print None env fuel root m = true ->
+      exists txt J, encode fmt_float any_inner env root m = Ok txt /\ txt = print J /\ wfb J = true /\
+        (CodecDecTree.jdepth J <= CodecDec.max_scan_depth ->
+         exists m', CodecDec.decode_bytes orc env root txt = Ok m' /\ equiv_root any_inner raw_dec None env root m m').
+Proof. exact codec_full_bytes_decided. Qed.
+Print Assumptions C01_full_statement_bytes_decided.
+
+(* The same with the inner Any encoding being the encoder itself on the payload message of a
+   registered type (resolver reg and proto.Unmarshal abstract), nested n levels: inner_ok is no
+   longer a premise (C08_inner_encoding_is_compact discharges it). *)
+Theorem C01_full_statement_inner_encoder :
+  forall fmt_float parse_float parse_time reg unmarshal,
+    float_text_ok fmt_float -> float_roundtrip fmt_float parse_float -> time_parse_extends parse_time ->
+    (forall tn e root, reg tn = Some (e, root) -> oneofs_flat e) ->
+    (forall tn pb e root m, reg tn = Some (e, root) -> unmarshal tn pb = Some m -> raw_root_gen e compact_json root m) ->
+    forall n any_back env fuel root m,
+      env_static_b env = true ->
+      rep_root_b (inner_n fmt_float reg unmarshal n) print any_back env fuel root m = true ->
+      exists txt J, encode fmt_float (inner_n fmt_float reg unmarshal n) env root m = Ok txt /\ strict_parse txt = Some J /\
+        (N.of_nat (jnest J) <= max_nesting ->
+         exists m', decode_tree (dec_scalar parse_float parse_time) print false any_back env root J = Ok m' /\
+                    equiv_root (inner_n fmt_float reg unmarshal n) print any_back env root m m').
+Proof. exact codec_full_inner. Qed.
+Print Assumptions C01_full_statement_inner_encoder.
+
+(* ... and the success of the inner encoding, which rep_value asks of an Any whose payload is stored
+   as proto bytes, follows from the representability of the payload message (encode totality one
+   nesting level down). *)
+Theorem C01_any_payload_encodes :
+  forall fmt_float parse_float parse_time reg unmarshal,
+    float_text_ok fmt_float -> float_roundtrip fmt_float parse_float -> time_parse_extends parse_time ->
+    (forall tn e root, reg tn = Some (e, root) -> oneofs_flat e) ->
+    forall k raw any_back tn pb e root pm,
+      reg tn = Some (e, root) -> unmarshal tn pb = Some pm ->
+      rep_root (inner_n fmt_float reg unmarshal k) raw any_back e root pm ->
+      exists t, inner_n fmt_float reg unmarshal (S k) tn pb = Ok t.
+Proof. exact inner_payload_encodes. Qed.
+Print Assumptions C01_any_payload_encodes.
+
+(* non-vacuity of the decided statement on a schema with an enum whose third short name is the prefix
+   followed by the second one, an array, a map, an exposed oneof (path []), and a j5 Any storing JSON
+   text: both deciders evaluate to true and the round trip computes *)
+Definition dx_env : env :=
+  [([82], SObject [mkProp [101] [1] false false [] (FEnum [69]);
+                   mkProp [97] [2] false false [] (FArray (FScalar KInt32));
+                   mkProp [109] [3] false false [] (FMap (FScalar KString));
+                   mkProp [120] [] false false [] (FOneof [88]);
+                   mkProp [121] [6] false true [] (FAny false)]);
+   ([88], SOneof [mkProp [120; 97] [4] false true [5] (FScalar KBool);
+                  mkProp [120; 98] [5] false true [4] (FScalar KInt32)]);
+   ([69], SEnum [80; 95] [([85], 0%Z); ([65], 1%Z); ([80; 95; 65], 2%Z)])].
+Definition dx_msg : msg :=
+  [(1, VEnum 2); (2, VList [VInt 1; VInt (-2)]); (3, VMap [([107], VStr [118])]); (4, VBool false);
+   (6, VMsg [(1, VStr [84]); (3, VBytes [123; 34; 97; 34; 58; 49; 125])])].
+Definition dx_txt : bytes := Eval vm_compute in
+  match encode rt_fmt rt_inner dx_env [82] dx_msg with Ok t => t | _ => [] end.
+Definition dx_tree : jvalue := Eval vm_compute in
+  match strict_parse dx_txt with Some j => j | None => JNull end.
+
+Example C01_decided_example :
+  env_static_b dx_env = true /\ rep_root_b rt_inner print None dx_env 3 [82] dx_msg = true /\
+  encode rt_fmt rt_inner dx_env [82] dx_msg = Ok dx_txt /\ strict_parse dx_txt = Some dx_tree /\
+  decode_tree (dec_scalar rt_pf rt_pt) print false None dx_env [82] dx_tree = Ok dx_msg /\
+  dx_txt <> [].
+Proof. repeat split; try (vm_compute; reflexivity). discriminate. Qed.
